@@ -280,6 +280,26 @@ template <class G> struct C10 {
     P p; for (int i = 0; i < G::Dim; ++i) p(i) = S(0.25 * (i + 1) * ((i % 2) ? -1 : 1));
     const char* kn[3] = {"owning", "Map", "MapConst"};
     R.product_size = (long)xs.size() * ts.size() * 4 * 10;
+    {
+      // copy / move / cross-kind construction over the WHOLE reduced element lattice (not the thinned one: copies are cheap) and, for
+      // each element, over coefficient vectors pushed to both edges of the norm acceptance band — a copy that re-normalises
+      // (seed C10c) is bit-exact on data whose computed norm happens to be exactly 1 and on nothing else
+      std::vector<lat::XAtom> xall = lat::elements(g, cfg, lat::REDUCED);
+      const T t0 = vf::make_tan<T>(ts[0].t);
+      std::vector<char> rc = g.rot_coeff_mask();
+      for (size_t i = 0; i < xall.size(); ++i) {
+        if (!R.mine()) continue;
+        for (int band = 0; band < 3; ++band) {
+          typename G::DataType c = vf::make_elem<G>(xall[i].c).coeffs();
+          const S f = band == 0 ? S(1) : (band == 1 ? S(1) + S(0.4L * cfg.eps) : S(1) - S(0.4L * cfg.eps));
+          for (int k = 0; k < G::RepSize; ++k) if (rc[k]) c(k) *= f;
+          G Xo; Xo.coeffs() = c;
+          cur = "copies;" + xall[i].key + (band == 0 ? "" : (band == 1 ? ",band=+0.4eps" : ",band=-0.4eps"));
+          if (!R.want(cur)) continue;
+          copies(Xo, t0);
+        }
+      }
+    }
     for (size_t i = 0; i < xs.size(); ++i)
       for (size_t j = 0; j < ts.size(); ++j)
         for (int pl = 0; pl < 4; ++pl) {
